@@ -9,6 +9,8 @@ import (
 	"github.com/sirupsen/logrus"
 
 	"github.com/projectcalico/calico/felix/ipsets"
+	"github.com/projectcalico/calico/felix/iptables"
+	"github.com/projectcalico/calico/felix/nftables"
 	"github.com/projectcalico/calico/felix/rules"
 	"github.com/projectcalico/calico/zzverif/nfsim"
 	"github.com/projectcalico/calico/zzverif/vk"
@@ -59,10 +61,24 @@ func vQuiet() {
 	})
 }
 
-// vRenderer builds the REAL rule renderer.
+var (
+	vRendMu    sync.Mutex
+	vRendCache = map[[2]bool]*rules.DefaultRuleRenderer{}
+)
+
+// vRenderer returns the REAL rule renderer (one instance per dataplane x flow-logs setting; the renderer
+// is stateless after construction).
 func vRenderer(kind nfsim.Kind, flowLogs bool) *rules.DefaultRuleRenderer {
 	vQuiet()
-	return rules.NewRenderer(vConfig(flowLogs), kind == nfsim.Nft).(*rules.DefaultRuleRenderer)
+	vRendMu.Lock()
+	defer vRendMu.Unlock()
+	k := [2]bool{kind == nfsim.Nft, flowLogs}
+	if r := vRendCache[k]; r != nil {
+		return r
+	}
+	r := rules.NewRenderer(vConfig(flowLogs), kind == nfsim.Nft).(*rules.DefaultRuleRenderer)
+	vRendCache[k] = r
+	return r
 }
 
 // vSetName is the dataplane name of IP set id for the IP version.
@@ -91,4 +107,12 @@ func vClassify(err error) (le *nfsim.LoadError, tool error) {
 		return le, nil
 	}
 	return nil, err
+}
+
+// vMaxChainLen is the dataplane's chain-name length limit (what the renderer passes to EndpointChainName).
+func vMaxChainLen(kind nfsim.Kind) int {
+	if kind == nfsim.Nft {
+		return nftables.MaxChainNameLength
+	}
+	return iptables.MaxChainNameLength
 }
